@@ -385,6 +385,20 @@ type TUnsSliceAny struct {
 	kmip.Tag `kmip:"REQUEST_HEADER"`
 	S        []float64 `kmip:"-"`
 }
+// interface-typed fields in structs that implement no DynamicDispatch: single, repeated, repeated and required
+type TUnsIfaceOne struct {
+	kmip.Tag `kmip:"REQUEST_HEADER"`
+	V        interface{} `kmip:"BATCH_COUNT"`
+}
+type TUnsIfaceMany struct {
+	kmip.Tag `kmip:"REQUEST_HEADER"`
+	Vs       []interface{} `kmip:"BATCH_COUNT"`
+}
+type TUnsIfaceManyReq struct {
+	kmip.Tag `kmip:"REQUEST_HEADER"`
+	A        string        `kmip:"SERVER_INFORMATION"`
+	Vs       []interface{} `kmip:"BATCH_COUNT,required"`
+}
 type TUnsMapNamed struct {
 	kmip.Tag `kmip:"REQUEST_HEADER"`
 	M        map[string]int `kmip:"BATCH_COUNT"`
@@ -410,7 +424,8 @@ func c13Unsupported(r *Result) {
 	streams := [][]byte{wrap(i32), wrap(txt), wrap(i32, txt), wrap(txt, i32), wrap(i32, i32), wrap()}
 	five := int32(5)
 	values := []interface{}{TUnsMapAny{}, TUnsMapAny{A: 1, M: map[string]int{"a": 1}}, TUnsFloatAny{F: 1.5, A: 1}, TUnsPtrAnyReq{}, TUnsPtrAnyReq{P: &five},
-		TUnsSliceAny{S: []float64{1}}, TUnsMapNamed{M: map[string]int{"a": 1}}, TUnsChanSkip{C: make(chan int), A: 1}}
+		TUnsSliceAny{S: []float64{1}}, TUnsMapNamed{M: map[string]int{"a": 1}}, TUnsChanSkip{C: make(chan int), A: 1},
+		TUnsIfaceOne{V: int32(7)}, TUnsIfaceMany{Vs: []interface{}{int32(7), int32(8)}}, TUnsIfaceMany{}, TUnsIfaceManyReq{A: "abc", Vs: []interface{}{int32(7)}}}
 	for _, v := range values {
 		for _, byPtr := range []bool{false, true} {
 			key := fmt.Sprintf("Encode of %T (pointer=%v) %+v", v, byPtr, v)
